@@ -77,6 +77,7 @@ pub const NUMS: &[f64] = &[
 pub const STRS: &[&str] = &[
     "", "a", "hello world", "multi\nline", "ünï", "5", " padded ", "true", "it's", "(paren)", "a, b & c", "null", "1e3",
     "x\ty", "mysterious", "say 5", ".", "-1", "ab1", "tab\there", "two\n\nblank", "ends in a break\n", "\n", "\n\nstarts with two", "dos\r\nbreak\r\n", "‘curly’ “quotes”", "esc\u{1b}[0m",
+    "C:\\temp\\new", "back\\slash", "\\n", "\\\\", "sep\u{2028}arator", "next\u{85}line", "para\u{2029}graph", "\u{feff}bom", "form\u{c}feed", "fo'c'sle",
 ];
 pub const POETIC_WORDS: &[&str] = &[
     "a", "an", "the", "lovestruck", "ladykiller", "rock", "roll", "sweet", "desire", "fire", "ice", "cold", "heartbreaker",
